@@ -11,4 +11,4 @@ fi
 for id in "$@"; do
   (cd /verif && ./check $id ${TIER:-quick} 2>&1 | grep -E "^(VIOLATION|INCONCLUSIVE|HELD|KNOWN|property=)" | cut -c1-300 | head -12; echo "[$seed/$id] exit=$?")
 done
-git -C /repo checkout -- . && git -C /repo reset -q && git -C /repo status --short | head
+git -C /repo reset -q --hard HEAD; git -C /repo status --short | head
